@@ -343,15 +343,12 @@ def run(tier, seed):
     own_prefix = "C06."
     mcs = [core.mc("MC_AceText"), core.mc("MC_Names", workers=4), core.mc("MC_PortSem")]
     jobs = gen_jobs(rng, 6000 if tier == "quick" else 60000)
-    ev_lists = core.pmap(exec_job, jobs)
-    events = [e for evs in ev_lists for e in evs]
-    verdicts, vstats = core.validate("Trace_C06", events)
-    by_tid = {j["tid"]: (j, evs) for j, evs in zip(jobs, ev_lists)}
+    hits, vstats, n_events, samples = core.exec_validate(exec_job, jobs, "Trace_C06")
+    events = range(n_events)          # only its length is used by the callers
     out = []
-    for v in verdicts:
+    for v, j, evs in hits:
         if not (v["clause"].startswith(own_prefix) or v["clause"].startswith("machinery")):
             continue
-        j, evs = by_tid[v["tid"]]
         out.append(dict(clause=v["clause"], features=dict(cls=j["cls"], plat=j["kw"].get("platform")), case=j, events=evs))
     if own_prefix != "C06.":
         return out, jobs, events, vstats
@@ -364,13 +361,10 @@ def run(tier, seed):
         ver, vm = rng2.choice(ace_gen.VERSIONS)
         ajobs.append(dict(tid=t, plat=plat, ver=ver, vmajor=vm, port_nr=rng2.random() < 0.4, protocol_nr=rng2.random() < 0.4,
                           line=ace_gen.ace_text(rng2, plat, vm), origin="slots"))
-    aev = core.pmap(ace_gen.exec_job, ajobs)
-    aevents = [e for evs in aev for e in evs]
-    averd, astats = core.validate("Trace_C01", aevents)
-    aby = {j["tid"]: (j, evs) for j, evs in zip(ajobs, aev)}
-    for v in averd:
+    ahits, astats, n_aevents, _asamples = core.exec_validate(ace_gen.exec_job, ajobs, "Trace_C01")
+    aevents = range(n_aevents)
+    for v, j, evs in ahits:
         if v["clause"].startswith("C06.") or v["clause"].startswith("machinery"):
-            j, evs = aby[v["tid"]]
             out.append(dict(clause=v["clause"], features=dict(cls="Ace", plat=j["plat"]), case=j, events=evs))
     # live lists: the text of an Acl whose switches / grouping / platform were assigned after construction must parse
     # back (under the object's current settings) to the same text - Reparse steps of the ACL machine (Trace_Acl)
@@ -400,7 +394,7 @@ def run(tier, seed):
              "(class, text, settings); every case is non-trivial || LIVE LISTS: Acl objects whose switches, grouping, "
              "type or platform were assigned after construction, rendered and parsed back under their current settings "
              "(Reparse steps judged by Trace_Acl)",
-        samples=[dict(job=jobs[i], events=ev_lists[i]) for i in (0, len(jobs) // 2, len(jobs) - 1)],
+        samples=[dict(job=j_, events=e_) for j_, e_ in samples],
         model_checking=mcs, trace_validation=[vstats, astats], exhaustive=False,
         checker_cmd="tlc MC_AceText, MC_Names, MC_PortSem; tlc Trace_C06, Trace_C01 (W=32, PMax=65535)",
     )
